@@ -457,18 +457,88 @@ func c01R4(c *Ctx, w *World, main, vv *ssa.Function, vrfPrio *types.Func) {
 		cv, ok := stripConv(v).(*ssa.Const)
 		return ok && cv.Value != nil && cv.Value.Kind() == constant.Bool && constant.BoolVal(cv.Value) == want
 	}
+	// the quorum kind that reaches OverThreshold inside verifyVotes for a given call: the third argument of
+	// OverThreshold evaluated with the call's constant arguments substituted for verifyVotes' parameters
+	var evalAt func(site ssa.CallInstruction, v ssa.Value, depth int) constant.Value
+	evalAt = func(site ssa.CallInstruction, v ssa.Value, depth int) constant.Value {
+		if depth > 6 {
+			return nil
+		}
+		switch x := v.(type) {
+		case *ssa.Const:
+			return x.Value
+		case *ssa.Convert:
+			return evalAt(site, x.X, depth+1)
+		case *ssa.ChangeType:
+			return evalAt(site, x.X, depth+1)
+		case *ssa.Parameter:
+			for i, p := range vv.Params {
+				if p == x && i >= 1 && i-1 < len(callArgs(site)) {
+					return evalAt(site, callArgs(site)[i-1], depth+1)
+				}
+			}
+		case *ssa.BinOp:
+			l, r := evalAt(site, x.X, depth+1), evalAt(site, x.Y, depth+1)
+			if l == nil || r == nil {
+				return nil
+			}
+			switch x.Op {
+			case token.EQL, token.NEQ, token.LSS, token.LEQ, token.GTR, token.GEQ:
+				if l.Kind() == constant.Bool || r.Kind() == constant.Bool {
+					if x.Op == token.EQL {
+						return constant.MakeBool(constant.BoolVal(l) == constant.BoolVal(r))
+					}
+					if x.Op == token.NEQ {
+						return constant.MakeBool(constant.BoolVal(l) != constant.BoolVal(r))
+					}
+					return nil
+				}
+				return constant.MakeBool(constant.Compare(constant.ToInt(l), x.Op, constant.ToInt(r)))
+			}
+		case *ssa.UnOp:
+			if x.Op == token.NOT {
+				if o := evalAt(site, x.X, depth+1); o != nil && o.Kind() == constant.Bool {
+					return constant.MakeBool(!constant.BoolVal(o))
+				}
+			}
+		}
+		return nil
+	}
+	quorumKind := func(site ssa.CallInstruction) (bool, bool) {
+		var known, val, first = true, false, true
+		n := 0
+		for _, oc := range callsByName(vv, "ucon", "OverThreshold") {
+			n++
+			cv := evalAt(site, callArgs(oc)[2], 0)
+			if cv == nil || cv.Kind() != constant.Bool {
+				known = false
+				continue
+			}
+			if first {
+				val, first = constant.BoolVal(cv), false
+			} else if val != constant.BoolVal(cv) {
+				known = false
+			}
+		}
+		return val, known && n > 0
+	}
+	_ = isBool
 	var pre, cert ssa.CallInstruction
 	for _, v := range votes {
 		a := callArgs(v)
+		if len(a) < 5 {
+			continue
+		}
+		pos, known := quorumKind(v)
 		switch {
-		case isConst(a[3], stepConst("Precommit")) && isConst(a[4], constOf(w, "params", "KindChamber")) && isBool(a[5], true):
+		case isConst(a[3], stepConst("Precommit")) && isConst(a[4], constOf(w, "params", "KindChamber")) && known && pos:
 			pre = v
-		case isConst(a[3], stepConst("Certificate")) && isConst(a[4], constOf(w, "params", "KindChamber")) && isBool(a[5], false):
+		case isConst(a[3], stepConst("Certificate")) && isConst(a[4], constOf(w, "params", "KindChamber")) && known && !pos:
 			cert = v
 		}
 	}
-	c.Check(name+"#precommit-check-args", main.Pos(), pre != nil, ifelse(pre != nil, "verifyVotes(Precommit, KindChamber, isPos=true) present", "no verifyVotes call checks chamber precommits against the positive quorum"))
-	c.Check(name+"#certificate-check-args", main.Pos(), cert != nil, ifelse(cert != nil, "verifyVotes(Certificate, KindChamber, isPos=false) present", "no verifyVotes call checks chamber certificate votes"))
+	c.Check(name+"#precommit-check-args", main.Pos(), pre != nil, ifelse(pre != nil, "verifyVotes(Precommit, KindChamber) present and its quorum test uses the precommit fraction (OverThreshold(…, true))", "no verifyVotes call checks chamber precommits against the precommit quorum fraction 0.685 (the quorum kind that reaches OverThreshold for that call is not the constant true): a header with precommit weight between the certificate and the precommit fraction is accepted"))
+	c.Check(name+"#certificate-check-args", main.Pos(), cert != nil, ifelse(cert != nil, "verifyVotes(Certificate, KindChamber) present and its quorum test uses the certificate fraction (OverThreshold(…, false))", "no verifyVotes call checks chamber certificate votes against the certificate quorum fraction"))
 	pa := callArgs(prio[0])
 	c.Check(name+"#priority-step", prio[0].Pos(), isConst(pa[3], stepConst("UConStepProposal")), "the proposer credential is verified for the proposal step")
 	acoFreq := constOf(w, "params", "ACoCHTFrequency")
